@@ -299,7 +299,7 @@ func c12Check(c c12Case) (out kit.Outcome) {
 			return out
 		}
 	}
-	lastID := ""
+	lastID, lastBody := "", ""
 	for i := range tr.Events {
 		e := &tr.Events[i]
 		if !isRuntimeActor(e.Actor) || e.Kind != "return" {
@@ -338,6 +338,13 @@ func c12Check(c c12Case) (out kit.Outcome) {
 			if ex.Repoll && id != lastID {
 				out.Violate("C12/repoll-other-invocation", "re-poll %s returned request id %s, the invocation in flight is %s", e.Tag, id, lastID)
 				return out
+			}
+			if ex.Repoll && e.Body != nil && lastBody != "" && e.Body.Sha != lastBody {
+				out.Violate("C12/repoll-other-event", "re-poll %s returned the same request id but a different event (%d bytes, sha %s; first delivery sha %s): a repeated next must return the same invocation", e.Tag, e.Body.Len, e.Body.Sha[:12], lastBody[:12])
+				return out
+			}
+			if e.Body != nil {
+				lastBody = e.Body.Sha
 			}
 			if !ex.Repoll && id == lastID {
 				out.Violate("C12/same-invocation-twice", "call %s delivered request id %s again although it was completed", e.Tag, id)
